@@ -1,4 +1,4 @@
-(* C02/Proofs6.v — round 3: the stuck quiescent states are exactly F3 / S1; internal activity terminates. *)
+(* C02/Proofs6.v — round 3: nobody is stuck at quiescence; internal activity terminates (ranking function). *)
 From Verif Require Import Common.Base C02.Model C02.Proofs C02.Proofs2 C02.Proofs3 C02.Proofs4.
 Require Import ZifyBool Permutation.
 Local Open Scope Z_scope.
@@ -13,30 +13,10 @@ Qed.
 Lemma stuck_not_all_returned s : stuck s -> ~ all_returned s.
 Proof. intros (p & v & H & N) A. destruct (A _ _ H) as [r E]. exact (N r E). Qed.
 
-(* (3) the iff — after the repair of S1 the only stuck quiescent states are the F3 deadlock *)
-Lemma no_lost_wakeup_iff_l c s :
-  0 <= cap c -> reachable c s -> quiescent c s ->
-  (stuck s <-> f3_shape s) /\ ~ s1_shape s /\
-  (f3_shape s -> exists p sz, pget p (prods s) = Some (PLeftCtx sz) /\ In p (cancelled s)).
-Proof.
-  intros Hc RE Q.
-  pose proof (reachable_inv _ _ Hc RE) as ((T1 & T2 & T3 & T4 & _) & SI & (_ & _ & _ & _ & _ & G6) & (_ & _ & _ & _ & D5)).
-  assert (F3W : f3_shape s -> exists p sz, pget p (prods s) = Some (PLeftCtx sz) /\ In p (cancelled s)).
-  { intros (_ & _ & _ & LC). destruct (cnt_pos_ex is_leftctx (prods s) G6) as (p & v & Hp & Hv); [lia|].
-    destruct v; try discriminate. exists p, sz. split; [exact Hp|]. eapply D5. exact Hp. }
-  split; [split|split].
-  - intros ST. destruct (lock s) as [|k|p0|] eqn:L.
-    + exfalso. exact (stuck_not_all_returned _ ST (no_lost_wakeup_partial_l _ _ Hc RE Q L)).
-    + assert (NL : lock s <> Free) by congruence.
-      destruct (deadlock_shape_l _ _ Hc RE Q NL) as (X1 & X2 & X3 & X4 & _).
-      repeat split; auto.
-    + exfalso. eapply T4. reflexivity.
-    + exfalso. exact (reach_nobcast _ _ RE L).
-  - intros F. destruct (F3W F) as (p & sz & Hp & _). exists p, (PLeftCtx sz). split; [exact Hp|]. intros r; discriminate.
-  - intros (L & _ & _ & _ & _ & p & sz & Hp & _).
-    destruct (no_lost_wakeup_partial_l _ _ Hc RE Q L _ _ Hp) as [r E]. discriminate.
-  - exact F3W.
-Qed.
+(* at quiescence nobody is stuck (the former iff "stuck <-> F3 shape" with no F3 shape left) *)
+Lemma no_stuck_at_quiescence_l c s :
+  0 <= cap c -> reachable c s -> quiescent c s -> ~ stuck s.
+Proof. intros Hc R Q ST. exact (stuck_not_all_returned _ ST (no_lost_wakeup_l c Hc s R Q)). Qed.
 
 (* ---- (2) internal activity terminates: a ranking function ---------------------------------------------- *)
 Lemma ccount_nonneg b l : 0 <= ccount b l.
@@ -58,10 +38,10 @@ Proof. induction l as [|[q u] l IH]; simpl; [lia|]. rewrite IH. lia. Qed.
 
 Lemma mu_nonneg s : tokinv s -> 0 <= mu s.
 Proof.
-  intros (T1 & _). unfold mu, sb, b2z. pose proof (ccount_nonneg true (cons s)).
+  intros (T1 & T2 & _). unfold mu, b2z. pose proof (ccount_nonneg true (cons s)).
   pose proof (cnt_nonneg is_insel (prods s)). pose proof (cnt_nonneg is_lefttok (prods s)).
   pose proof (cnt_nonneg is_leftctx (prods s)). pose proof (cnt_nonneg is_await (prods s)).
-  destruct (tok s), (lock s); lia.
+  destruct (tok s); lia.
 Qed.
 
 Ltac cnt_rw2 :=
@@ -81,17 +61,16 @@ Qed.
 Lemma mu_decreases c s l s' z :
   corrupt s = [] -> tokinv s -> stopped s = false -> internal l = true -> step c s l = Some (s', z) -> mu s' < mu s.
 Proof.
-  intros NF T St Hi H.
-  assert (T' : tokinv s') by (eapply tokinv_step; eauto).
-  destruct T' as (_ & _ & _ & T4'). revert T4' St Hi. unfold mu, sb. revert H.
-  step_cases; intros T4' St Hi; try discriminate; cnt_rw2;
-    try (exfalso; eapply T4'; reflexivity);
+  intros NF T St Hi H. destruct T as (T1 & T2 & _).
+  revert T1 T2 St Hi. unfold mu. revert H.
+  step_cases; intros T1 T2 St Hi; try discriminate; cnt_rw2;
     try congruence;
     try match goal with H : find_id ?id (inflight s) = Some _ |- _ => pose proof (length_remove_id _ _ _ H) end;
     try match goal with H : cfind ?k (cons s) = Some _ |- _ => pose proof (proj1 (ccount_crem _ _ _ H)) end;
     pose proof (ccount_wake1 (cons s)); rewrite ?ccount_app; cbn [Bool.eqb];
     repeat match goal with H : items s = _ |- _ => rewrite ?H; clear H end; cbv iota in *;
-    cbn [length]; rewrite ?app_length; cbn [length]; unfold b2z; lia.
+    cbn [length]; rewrite ?app_length; cbn [length]; unfold b2z;
+    repeat match goal with |- context [if tok s then _ else _] => destruct (tok s) end; lia.
 Qed.
 
 Lemma stopped_internal c s l s' z :
@@ -241,24 +220,24 @@ Qed.
 Lemma internal_is_fit c l : internal l = true -> wf_label c l /\ fit_label c l.
 Proof. destruct l; simpl; intros H; try discriminate; auto. Qed.
 
-(* RELEASED WHEN SPACE.  From any S1-free reachable state of a running queue, let only the queue's own threads
-   move (blocked producers, consumers, completions; no new Offer, cancellation or Shutdown).  Then
+(* RELEASED WHEN SPACE.  From any reachable state of a running queue, let only the queue's own threads move
+   (blocked producers, consumers, completions; no new Offer, cancellation or Shutdown).  Then
    (a) at most [mu s] steps are possible, whatever the schedule: internal activity always terminates, so a weakly
        fair run — one that does not stop while an internal label is enabled — reaches a quiescent state;
-   (b) that quiescent state is the F3 deadlock, or else everybody has returned, the queue has drained, and every
-       producer that was parked in [s] with a live context has been admitted, handed to a consumer and finished. *)
+   (b) in that quiescent state everybody has returned, the queue has drained, and every producer that was parked in
+       [s] with a live context has been admitted, handed to a consumer and finished (or, if its request cannot be
+       stored, has returned its error). *)
 Lemma released_when_space_l c s ls s' :
   0 <= cap c -> reachable c s -> stopped s = false ->
   internal_run ls -> run c s ls = Some s' ->
   Z.of_nat (length ls) <= mu s /\
   (quiescent c s' ->
-     f3_shape s' \/
-     (all_returned s' /\ items s' = [] /\ inflight s' = [] /\ size s' = 0 /\ lock s' = Free /\
-      forall p sz, blocking c = true ->
-        pget p (prods s) = Some (PInSelect sz) \/ pget p (prods s) = Some (PLeftTok sz) ->
-        ~ In p (cancelled s) ->
-        (find_id p (faulty s) = None -> In p (acc s') /\ In p (hand s') /\ In p (map fst (fin s'))) /\
-        (forall k, find_id p (faulty s) = Some k -> exists k', pget p (prods s') = Some (PRet (RErr k'))))).
+     all_returned s' /\ items s' = [] /\ inflight s' = [] /\ size s' = 0 /\
+     forall p sz, blocking c = true ->
+       pget p (prods s) = Some (PInSelect sz) \/ pget p (prods s) = Some (PLeftTok sz) ->
+       ~ In p (cancelled s) ->
+       (find_id p (faulty s) = None -> In p (acc s') /\ In p (hand s') /\ In p (map fst (fin s'))) /\
+       (forall k, find_id p (faulty s) = Some k -> exists k', pget p (prods s') = Some (PRet (RErr k')))).
 Proof.
   intros Hc RE St IR R.
   pose proof (reach_tokinv _ _ _ RE) as T.
@@ -268,94 +247,88 @@ Proof.
   intros Q.
   assert (RE' : reachable c s').
   { eapply reachP_run; [exact RE| |exact R]. eapply Forall_impl; [|exact IR]. intros a Ha. exact (proj1 (internal_is_fit c a Ha)). }
-  destruct (lock s') as [|k|p0|] eqn:LK.
-  - right. pose proof (no_lost_wakeup_partial_l _ _ Hc RE' Q LK) as AR.
-    destruct (quiescent_facts _ _ Q LK) as (Q1 & Q2 & _).
-    destruct (pq_size_bounds_l _ _ Hc RE') as (_ & _ & Z0).
-    split; [exact AR|]. split; [exact Q1|]. split; [exact Q2|]. split; [auto|]. split; [reflexivity|].
-    intros p sz B Hp NC.
-    assert (F : fate p s) by (unfold fate; destruct Hp as [-> | ->]; exact I).
-    pose proof (fate_run _ _ _ _ _ B F R) as F'.
-    rewrite <- (cancelled_internal_run _ _ _ _ IR R) in NC.
-    pose proof (faulty_internal_run _ _ _ _ IR R) as FE.
-    split.
-    2: { intros k Hk. unfold fate in F'. destruct (pget p (prods s')) as [v|] eqn:E; [|contradiction].
-         destruct (AR _ _ E) as [r ->]. destruct r; eauto; exfalso.
-         - (* ROk: accepted, but a producer whose request cannot be stored is never accepted *)
-           refine (proj1 (reach_faultyinv _ _ Hc RE' p k _) F'); rewrite FE; exact Hk.
-         - contradiction.
-         - contradiction.
-         - contradiction.
-         - contradiction.
-         - refine (proj1 (reach_faultyinv _ _ Hc RE' p k _) F'); rewrite FE; exact Hk. }
-    intros NFp.
-    assert (A : In p (acc s')).
-    { unfold fate in F'. destruct (pget p (prods s')) as [v|] eqn:E; [|contradiction].
-      destruct (AR _ _ E) as [r ->]. destruct r; auto; try contradiction.
-      exfalso. apply F'. rewrite FE. exact NFp. }
-    pose proof (handoff_complete_l _ _ Hc RE' Q1) as HA.
-    destruct (handoff_exactly_once_l _ _ Hc RE') as (_ & _ & _ & _ & _ & _ & _ & _ & HF & _).
-    split; [exact A|]. rewrite HA. split; [exact A|].
-    destruct (HF p) as [X|X]; [rewrite HA; exact A|exact X|]. rewrite Q2 in X. contradiction.
-  - left. assert (NL : lock s' <> Free) by congruence.
-    destruct (deadlock_shape_l _ _ Hc RE' Q NL) as (X1 & X2 & X3 & X4 & _). rewrite LK in X1.
-    unfold f3_shape. rewrite LK. auto.
-  - exfalso. destruct (reach_tokinv _ _ _ RE') as (_ & _ & _ & T4 & _). eapply T4. exact LK.
-  - exfalso. exact (reach_nobcast _ _ RE' LK).
+  pose proof (no_lost_wakeup_l c Hc s' RE' Q) as AR.
+  destruct (quiescent_facts _ _ Q) as (Q1 & Q2 & _).
+  destruct (pq_size_bounds_l _ _ Hc RE') as (_ & _ & Z0).
+  split; [exact AR|]. split; [exact Q1|]. split; [exact Q2|]. split; [auto|].
+  intros p sz B Hp NC.
+  assert (F : fate p s) by (unfold fate; destruct Hp as [-> | ->]; exact I).
+  pose proof (fate_run _ _ _ _ _ B F R) as F'.
+  rewrite <- (cancelled_internal_run _ _ _ _ IR R) in NC.
+  pose proof (faulty_internal_run _ _ _ _ IR R) as FE.
+  split.
+  2: { intros k Hk. unfold fate in F'. destruct (pget p (prods s')) as [v|] eqn:E; [|contradiction].
+       destruct (AR _ _ E) as [r ->]. destruct r; eauto; exfalso; try contradiction;
+         refine (proj1 (reach_faultyinv _ _ Hc RE' p k _) F'); rewrite FE; exact Hk. }
+  intros NFp.
+  assert (A : In p (acc s')).
+  { unfold fate in F'. destruct (pget p (prods s')) as [v|] eqn:E; [|contradiction].
+    destruct (AR _ _ E) as [r ->]. destruct r; auto; try contradiction.
+    exfalso. apply F'. rewrite FE. exact NFp. }
+  pose proof (handoff_complete_l _ _ Hc RE' Q1) as HA.
+  destruct (handoff_exactly_once_l _ _ Hc RE') as (_ & _ & _ & _ & _ & _ & _ & _ & HF & _).
+  split; [exact A|]. rewrite HA. split; [exact A|].
+  destruct (HF p) as [X|X]; [rewrite HA; exact A|exact X|]. rewrite Q2 in X. contradiction.
 Qed.
 
-(* PROGRESS (constructive): in an S1-free reachable state of a running queue whose mutex is free, if somebody is
-   still inside Offer then an internal label is enabled — and by [mu_decreases] every enabled one leads strictly
-   closer to quiescence. *)
+(* PROGRESS (constructive): in a reachable state of a running queue, if somebody is still inside Offer then an
+   internal label is enabled — and by [mu_decreases] every enabled one leads strictly closer to quiescence. *)
 Lemma progress_l c s :
-  0 <= cap c -> reachable c s -> stopped s = false -> lock s = Free -> stuck s ->
+  0 <= cap c -> reachable c s -> stopped s = false -> stuck s ->
   exists l s' z, internal l = true /\ step c s l = Some (s', z) /\ mu s' < mu s.
 Proof.
-  intros Hc RE St L (p & v & Hp & NR).
+  intros Hc RE St (p & v & Hp & NR).
   pose proof (reach_tokinv _ _ _ RE) as T.
   assert (EN : exists l, internal l = true /\ step c s l <> None).
   { destruct (reach_fit_inv _ _ Hc RE) as (((T1 & T2 & T3 & T4) & (B1 & _ & B3 & _) & (_ & _ & _ & _ & _ & G6) & _) & A & F & N).
     assert (RD : items s <> [] -> exists l, internal l = true /\ step c s l <> None).
     { intros NE. destruct (items s) as [|[q w] r] eqn:E; [congruence|].
-      destruct (read_enabled_l c s q w r E L (fun _ => St)) as (s1 & H1 & _).
+      destruct (read_enabled_l c s q w r E (fun _ => St)) as (s1 & H1 & _).
       exists LRead. split; [reflexivity|]. rewrite H1. discriminate. }
     assert (DN : inflight s <> [] -> exists l, internal l = true /\ step c s l <> None).
     { intros NE. destruct (inflight s) as [|[q w] r] eqn:E; [congruence|].
-      exists (LDone q 0). split; [reflexivity|]. unfold step, lock_free, done. rewrite L, E. simpl.
+      exists (LDone q 0). split; [reflexivity|]. unfold step, done. rewrite E. simpl.
       rewrite Nat.eqb_refl. discriminate. }
+    assert (RT : forall q sz0, pget q (prods s) = Some (PLeftTok sz0) -> exists l, internal l = true /\ step c s l <> None).
+    { intros q sz0 Hq. exists (LRelockTok q). split; [reflexivity|]. unfold step. rewrite Hq.
+      destruct (0 <? sigs s); [|discriminate].
+      destruct (find_id q _); [destruct (_ >? _)|]; discriminate. }
+    assert (RC : forall q sz0, pget q (prods s) = Some (PLeftCtx sz0) -> exists l, internal l = true /\ step c s l <> None).
+    { intros q sz0 Hq. exists (LRelockCtx q). split; [reflexivity|]. unfold step. rewrite Hq.
+      destruct (waiting s =? 0); discriminate. }
     destruct v as [sz|sz|sz| |r].
     - destruct (tok s) eqn:Tk.
-      { exists (LSelTok p). split; [reflexivity|]. unfold step. rewrite Hp, Tk, L. discriminate. }
+      { exists (LSelTok p). split; [reflexivity|]. unfold step. rewrite Hp, Tk. discriminate. }
       destruct (memb p (cancelled s)) eqn:Mb.
       { exists (LSelCtx p). split; [reflexivity|]. unfold step. rewrite Hp, Mb. discriminate. }
       destruct (items s) as [|x r] eqn:EI; [|apply RD; discriminate].
       destruct (inflight s) as [|y r'] eqn:EF; [|apply DN; discriminate].
       unfold sum_sz in B3. simpl in B3.
       pose proof (cnt_ge_of_pget is_insel _ _ _ Hp eq_refl) as S1.
-      pose proof (cnt_nonneg is_leftctx (prods s)) as LC0.
-      unfold sb in T2. rewrite ?L, ?Tk in T2. simpl in T2.
-      destruct N as [N|[N|N]]; try lia; try congruence.
-      destruct (cnt_pos_ex is_lefttok (prods s) G6 N) as (q & w & Hq & Hw).
-      destruct w; try discriminate.
-      exists (LRelockTok q). split; [reflexivity|]. unfold step, lock_free. rewrite L, Hq.
-      destruct (find_id q (faulty s)); [destruct (size s + sz0 >? cap c)|]; discriminate.
-    - exists (LRelockTok p). split; [reflexivity|]. unfold step, lock_free. rewrite L, Hp.
-      destruct (find_id p (faulty s)); [destruct (size s + sz >? cap c)|]; discriminate.
-    - exists (LRelockCtx p). split; [reflexivity|]. unfold step, lock_free. rewrite L, Hp.
-      destruct (waiting s =? 0), (tok s); discriminate.
-    - destruct (A _ Hp) as [I|[I|[I|[e I]]]].
+      destruct (Z_lt_dec 0 (cnt is_lefttok (prods s))) as [LT|LT].
+      { destruct (cnt_pos_ex is_lefttok (prods s) G6 LT) as (q & w & Hq & Hw). destruct w; try discriminate. eapply RT; eauto. }
+      destruct (Z_lt_dec 0 (cnt is_leftctx (prods s))) as [LC|LC].
+      { destruct (cnt_pos_ex is_leftctx (prods s) G6 LC) as (q & w & Hq & Hw). destruct w; try discriminate. eapply RC; eauto. }
+      exfalso.
+      pose proof (cnt_nonneg is_lefttok (prods s)). pose proof (cnt_nonneg is_leftctx (prods s)).
+      assert (G0 : sigs s = 0).
+      { destruct (Z_lt_dec 0 (sigs s)) as [P|P]; [|lia]. destruct (T4 P) as [X|X]; [congruence|lia]. }
+      assert (WP : 0 < waiting s) by lia.
+      destruct (N WP) as [X|X]; lia.
+    - eapply RT; eauto.
+    - eapply RC; eauto.
+    - destruct (A _ Hp) as [I|[I|I]].
       + apply RD. intros E. rewrite E in I. exact I.
       + apply DN. intros E. rewrite E in I. exact I.
       + destruct (In_find_id _ _ I) as [e E]. exists (LResult p). split; [reflexivity|].
         unfold step, find_res. rewrite Hp, E. discriminate.
-      + congruence.
     - exfalso. exact (NR r eq_refl). }
   destruct EN as (l & Hi & NE). destruct (step c s l) as [[s1 z]|] eqn:E; [|congruence].
   exists l, s1, z. split; [exact Hi|]. split; [exact E|].
   eapply mu_decreases; eauto. exact (reach_nofault _ c s (fun l H => H) RE).
 Qed.
 
-(* ---- the cond API including Broadcast: the token invariant holds on EVERY run -------------------------- *)
+(* ---- the cond API including Broadcast: the counter invariant holds on EVERY run -------------------------- *)
 Lemma reachable_api_tokinv c s : reachable_api c s -> tokinv s.
 Proof.
   intros [ls R]. apply (reach_tokinv (fun _ => True) c s). exists ls. split; [|exact R].
@@ -364,21 +337,16 @@ Qed.
 
 Lemma cond_api_invariant_l c s :
   reachable_api c s ->
-  cnt is_insel (prods s) + cnt is_leftctx (prods s) = waiting s + b2z (tok s) + sb s /\ 0 <= waiting s /\
-  (forall p, lock s <> BRecv p) /\
-  (lock s = BBcast -> tok s = true /\ 0 < waiting s).
-Proof. intros R. destruct (reachable_api_tokinv _ _ R) as (A1 & A2 & _ & A4 & A5). auto. Qed.
+  cnt is_insel (prods s) + cnt is_lefttok (prods s) + cnt is_leftctx (prods s) = waiting s + sigs s /\
+  0 <= waiting s /\ 0 <= sigs s /\ (0 < sigs s -> tok s = true \/ 0 < cnt is_lefttok (prods s)).
+Proof. intros R. destruct (reachable_api_tokinv _ _ R) as (A1 & A2 & A3 & A4). auto. Qed.
 
-(* Broadcast with every counted waiter inside the select: after the waiters have taken their tokens the
-   broadcaster has left, nobody is counted and no token is left over *)
+(* Broadcast never blocks: every counted waiter gets a wake-up of its own, the bell is rung once *)
 Lemma broadcast_step_l c s s' z :
   step c s LBroadcast = Some (s', z) ->
-  lock s = Free /\
-  (waiting s = 0 -> s' = s) /\
-  (0 < waiting s -> tok s = false -> tok s' = true /\ waiting s' = waiting s - 1 /\
-     (waiting s = 1 -> lock s' = Free) /\ (1 < waiting s -> lock s' = BBcast)) /\
-  (0 < waiting s -> tok s = true -> lock s' = BBcast /\ waiting s' = waiting s).
+  z = 0 /\ waiting s' = 0 /\ sigs s' = sigs s + waiting s /\
+  (0 < sigs s + waiting s -> tok s' = true) /\ (sigs s + waiting s <= 0 -> tok s' = tok s) /\
+  size s' = size s /\ items s' = items s /\ prods s' = prods s.
 Proof.
   intros H. revert H. step_cases; repeat split; intros; ss; try lia; try reflexivity; try congruence.
-  destruct s; simpl in *; subst; reflexivity.
 Qed.
